@@ -38,7 +38,7 @@ theorem refSet_fail_store (c : Cfg) (r : Ref) (v : Val) (s : St) (e : Cause)
     cases hk : (varSet c x v s).ok
     · exact varSet_fail_store c x v s hk
     · simp [hk] at h
-  | elem x base i =>
+  | elem x i =>
     simp only [refSet] at h ⊢
     split
     · rfl
@@ -290,13 +290,13 @@ theorem varSet_ev_heads (c : Cfg) (x : VarId) (v : Val) (s : St) :
   by_cases hk : (varSet c x v s).ok = true <;> by_cases hl : (c.kind x).isLogged = true <;>
     simp only [hl, hk, if_true, if_false, Bool.false_eq_true] <;> first | rfl | simp [Event.isOkSet]
 
-theorem refSet_elem_none (c : Cfg) (x : VarId) (base : Option Val) (i : Nat) (v : Val) (s : St)
-    (h : assoc base i v = none) : refSet c (.elem x base i) v s = ⟨s, [], some .elemErr⟩ := by
+theorem refSet_elem_none (c : Cfg) (x : VarId) (i : Nat) (v : Val) (s : St)
+    (h : assoc (s.store x) i v = none) : refSet c (.elem x i) v s = ⟨s, [], some .elemErr⟩ := by
   simp [refSet, h]
 
-theorem refSet_elem_some (c : Cfg) (x : VarId) (base : Option Val) (i : Nat) (v v' : Val) (s : St)
-    (h : assoc base i v = some v') :
-    refSet c (.elem x base i) v s =
+theorem refSet_elem_some (c : Cfg) (x : VarId) (i : Nat) (v v' : Val) (s : St)
+    (h : assoc (s.store x) i v = some v') :
+    refSet c (.elem x i) v s =
       ⟨(varSet c x v' s).st, (varSet c x v' s).ev,
         if (varSet c x v' s).ok then none else some (.setFail x)⟩ := by
   simp [refSet, h]
@@ -309,11 +309,11 @@ theorem refSet_ev_heads (c : Cfg) (r : Ref) (v : Val) (s : St) :
     simp only [refSet, varSet_ev_heads, Ref.head]
     by_cases hk : (varSet c x v s).ok = true <;>
       by_cases hl : (c.kind x).isLogged = true <;> simp [hk, hl]
-  | elem x base i =>
-    cases ha : assoc base i v with
-    | none => rw [refSet_elem_none c x base i v s ha]; simp
+  | elem x i =>
+    cases ha : assoc (s.store x) i v with
+    | none => rw [refSet_elem_none c x i v s ha]; simp
     | some v' =>
-      rw [refSet_elem_some c x base i v v' s ha]
+      rw [refSet_elem_some c x i v v' s ha]
       simp only [varSet_ev_heads, Ref.head]
       by_cases hk : (varSet c x v' s).ok = true <;>
         by_cases hl : (c.kind x).isLogged = true <;> simp [hk, hl]
